@@ -154,6 +154,8 @@ def c10(tier, seed, wd, replay=None):
                                 w3 = PX.world_from_pool(__import__("pickle").loads(__import__("pickle").dumps(PX.pool_of(w2))))
                                 pre = w3.project()
                                 r = w3.apply(c)
+                                if w3.extra_links:
+                                    continue        # the call left the object pool the judge is sized for
                                 cont_recs.append({"id": len(cont_recs) + 1, "pre": pre, "c": c, "res": r, "post": w3.project(), "consts": consts})
                 if si < (2 if tier == "quick" else 10):
                     for loader, fc in (("pickle", True), ("dill", False)):
